@@ -117,11 +117,18 @@ DECL_LAYOUTS = ['<?xml version="1.0" encoding="%s"?>', "<?xml version='1.0' enco
                 '<?xml version="1.0"\r\n\tencoding="%s" standalone="yes"?>', '<?xml  version = "1.0"  encoding="%s"  ?>', '<?xml version="1.0" encoding="%s"?>\n']
 
 
-def make_doc(text, codec, decl_label, bom=b"", layout=0):
+def decl_of(decl_label, layout=0):
     decl = DECL_LAYOUTS[layout] % decl_label if decl_label is not None else ""
     if decl_label == "":
         decl = '<?xml version="1.0"?>'
-    s = '%s<rss version="2.0"><channel><title>%s</title><item><title>i %s</title></item></channel></rss>' % (decl, text, text)
+    return decl
+
+
+def make_doc(text, codec, decl_label, bom=b"", layout=0, cdata=False):
+    """cdata=True: the text is written as a CDATA section (it may then quote markup, e.g. the document's own XML declaration)"""
+    decl = decl_of(decl_label, layout)
+    t = "<![CDATA[%s]]>" % text if cdata else text
+    s = '%s<rss version="2.0"><channel><title>%s</title><item><title>i %s</title></item></channel></rss>' % (decl, t, t)
     return bom + s.encode(codec)
 
 
@@ -237,8 +244,14 @@ def gen_case(rng, force_codecs=None):
         decl = "x-no-such-codec"
         expect.update(clean=False, exc="CharacterEncodingOverride", codec="utf-8")
     layout = rng.randrange(len(DECL_LAYOUTS)) if rng.random() < 0.4 else 0
+    cdata = False
+    if decl and rng.random() < 0.12 and "]]>" not in text:
+        # the text QUOTES the document's own XML declaration, byte for byte (a post about feed encodings): it is character data like any other
+        text = text + " " + decl_of(decl, layout).strip() + " quoted"
+        expect["text"] = text.replace("\r\n", "\n")          # XML line-end normalisation applies inside CDATA too
+        cdata = True
     try:
-        doc = make_doc(text, codec, decl, bom, layout)
+        doc = make_doc(text, codec, decl, bom, layout, cdata)
     except Exception:
         return None
     if channel in ("bogus-http", "bogus-decl"):
@@ -479,7 +492,7 @@ def search(ctx, focus=None):
     return {"evaluations": n, "distinct_nontrivial": len(distinct), "failures": failures, "distribution": dist,
             "rule": "%d Python text codecs x label channels {declaration, HTTP charset with application/*xml and text/*xml, both, BOM only, '<?xm' signature, "
                     "disagreeing channels, text/xml without charset, application/*xml without charset, non-XML media types, bogus names} x label spellings (alias, canonical, upper case, "
-                    "underscore) x payloads drawn from each codec's repertoire (non-ASCII in 80%% of cases; one in eight 120-9000 characters long and dense in multi-unit characters / surrogate pairs); oracle: text round-trips, encoding names the codec "
+                    "underscore) x payloads drawn from each codec's repertoire (one in eight declared documents quotes its own XML declaration in a CDATA section) (non-ASCII in 80%% of cases; one in eight 120-9000 characters long and dense in multi-unit characters / surrogate pairs); oracle: text round-trips, encoding names the codec "
                     "(or byte-order-specific / gb18030), bozo unset, or the documented exception class; plus a deterministic alignment sweep (a surrogate pair / multi-byte "
                     "sequence straddling every power-of-two byte offset 2^8..2^16, each split point, x {declaration only, application/xml without charset, HTTP charset} x BOM or not, "
                     "for UTF-16/32, UTF-8, Shift_JIS, GB18030, Big5, EUC-KR); distinct = distinct (document, headers)" % len(CODECS),
